@@ -62,9 +62,13 @@ def observed_range(alts, c):
     return min(vs), max(vs)
 
 
+# ids that are prefixes / suffixes of one another and sort next to each other (keys joined from ids, substring tests, sorted key lists)
+TRICKY_CRIT_IDS = ['1', '21', '3', '13', 'c', 'cc', 'ccc', 'x', 'xx', '1x', 'x1', 'c+', 'a b']
+
+
 def gen_criteria(rnd, n=None, cost_ok=True, range_prob=0.3):
     n = n or rnd.choice([1, 2, 2, 3, 3, 4, 5])
-    ids = rnd.sample(CRIT_IDS, n)
+    ids = rnd.sample(TRICKY_CRIT_IDS if rnd.random() < 0.08 else CRIT_IDS, n)
     crits = []
     for c in ids:
         t = 'gain'
@@ -81,7 +85,8 @@ def add_ranges(rnd, crits, alts, prob=0.3, containing=True):
     for c in crits:
         if rnd.random() < prob:
             lo, hi = observed_range(alts, c['id'])
-            if containing:
+            # now and then a declared range that does not hold every listed value (declared ranges are taken as given)
+            if containing and rnd.random() >= 0.12:
                 lo2 = lo - rnd.choice([0, 0.5, 1, 2.25])
                 hi2 = hi + rnd.choice([0, 0.5, 1, 2.25])
                 if hi2 <= lo2:
@@ -129,7 +134,7 @@ def weights_for(rnd, crit_ids, style=None):
         elif style == 'ties':
             w[c] = rnd.choice([1.0, 2.0, 0.5])
         else:
-            w[c] = rnd.choice([0.25, 0.5, 1.5, 2.0, 3.0, 10.0, 0.125, rnd.uniform(0.01, 5)])
+            w[c] = rnd.choice([0.25, 0.5, 1.5, 2.0, 3.0, 10.0, 0.125, rnd.uniform(0.01, 5), 0.25, 0.5, 1.5, 2.0, 3.0, 10.0, 0.125, 0.0])
     return w
 
 
@@ -336,7 +341,7 @@ def heuristic_request(rnd, method=None, n_alts=None, n_crits=None, distinct_weig
             # pairwise distinct weights that lie within 1e-6 / 1e-7 of each other: "from the heaviest weight down" is still decided
             mp['weights'] = weights_for(rnd, cids, 'close')
         elif distinct_weights or r < 0.82:
-            ws = rnd.sample([0.25, 0.5, 1.0, 1.5, 2.0, 3.0, 0.125, 5.0], len(cids))
+            ws = rnd.sample([0.25, 0.5, 1.0, 1.5, 2.0, 3.0, 0.125, 5.0, 0.0], len(cids))   # 0 is a weight like any other: the lightest
             mp['weights'] = dict(zip(cids, ws))
         else:
             mp['weights'] = weights_for(rnd, cids, 'ties')
@@ -374,10 +379,10 @@ def large_request(rnd, method=None, lo=16, hi=40):
 
 
 def many_alternatives_request(rnd, method=None, lo=65, hi=70):
-    """more alternatives than a machine word has bits (index sets kept as bit masks, fixed-size buffers): all of them considered,
-    one or two criteria, many ties"""
+    """more alternatives than a machine word has bits (index sets kept as bit masks, fixed-size buffers) or than any small-list
+    threshold (33-64): all of them considered, one or two criteria, many ties"""
     method = method or rnd.choice(METHODS)
-    n = rnd.randint(lo, hi)
+    n = rnd.randint(lo, hi) if rnd.random() < 0.6 else rnd.randint(33, 64)
     if method in UTILITY:
         req = utility_request(rnd, method, n_alts=n, n_crits=rnd.choice([1, 2]))
     elif method == 'electreIII':
